@@ -13,7 +13,7 @@ RULE = ("case = (kind ∈ options/snippets/variables, type, syntax, presence bit
         "both types, `xhtml` and unknown syntax names, plus the lattices with type and syntax, or only the syntax, left out of the call config (exhaustive; built-in layers are injected into deep copies of DEFAULT_CONFIG / "
         "SYNTAX_CONFIG swapped in for one case); plus natural keys of the shipped tables ('!!!', 'a', 'tm', selfClosingStyle, jsx.enabled, "
         "stylesheet.after/between) × 2^3 caller layers. Oracle: the key resolves to the sentinel of the most specific defining layer, every other "
-        "key equals the baseline, the same winner is visible through expand() (for stylesheet snippets also when the call carries a cache filled by an earlier call without caller layers), and deep snapshots of all built-in tables and caller dicts are "
+        "key equals the baseline, the same winner is visible through expand() (for stylesheet snippets also when the call carries a cache filled by an earlier call without caller layers; for the variables lang/charset also inside the body of the built-in snippet `doc`), and deep snapshots of all built-in tables and caller dicts are "
         "unchanged. Non-trivial: ≥ 2 layers define the key; distinct by construction.")
 ASSUME = ["`type` is always passed explicitly (the README's 'syntax implies type' is not implemented and not claimed by C20)",
           "emmet.config looks up DEFAULT_CONFIG / SYNTAX_CONFIG as module globals at call time (true for merged_data); the swap is undone in finally"]
@@ -238,6 +238,12 @@ def check_natural(case, rec):
             out_c = expand(key, dict(user, cache=cache), glob)
         if out_c != out:
             rec.fail('precedence-via-expand:snippets:shared-cache', '%s/%s expand(%r) with a cache filled by a call without caller layers = %r, without cache %r (layers %s)' % (typ, syntax, key, out_c, out, bits))
+    if kind == 'variables' and typ == 'markup' and key in ('lang', 'charset') and exp is not None:
+        # the same winner where the variable is used inside a snippet BODY (`doc`: html[lang=${lang}] … meta[charset=${charset}])
+        with guard():
+            out = expand('doc', user, glob)
+        if ('"%s"' % exp) not in out or any(('"<%d>"' % k) in out for k in range(6) if '<%d>' % k != exp):
+            rec.fail('precedence-via-expand:variables:snippet-body', '%s/%s expand("doc") does not show %s=%r (layers %s): %r' % (typ, syntax, key, exp, bits, core.short(out, 200)))
     if kind == 'options' and key == 'output.selfClosingStyle':
         with guard():
             out = expand('br', user, glob)
